@@ -23,7 +23,7 @@ RULE = ('Arithmetic tuples (sample_rate x num_branches x num_taps x num_chans x 
         'library default configuration; distinct by case hash.')
 ASSUMPTIONS = ['1e-9 relative boundary rule from the property', 'unit drift rate compared in magnitude',
                'sample counter installed by wrapping antenna.get_samples inside the harness']
-REQUIRED_CLASSES = ['recorded', 'recorded_multi_file', 'near_boundary', 'before=preview_stream', 'before=aborted_record', 'before=earlier_record', 'exact_multiple', 'array', 'array_with_delays', 'single', 'bits=4', 'bits=8', 'from_data_backend', 'from_data_request=longer']
+REQUIRED_CLASSES = ['recorded', 'recorded_multi_file', 'near_boundary', 'before=preview_stream', 'before=aborted_record', 'before=earlier_record', 'exact_multiple', 'array', 'array_with_delays', 'single', 'bits=4', 'bits=8', 'from_data_backend', 'from_data_request=longer', 'exact_multiple_of_integration_step']
 
 RATES = [3e9, 2.048e9, 187.5e6, 1e6, 3.3e9]
 BRANCHES = [8, 64, 1024, 4096]
@@ -38,6 +38,8 @@ def dur_strategy():
     return st.one_of(
         st.fixed_dictionaries({'kind': st.just('generic'), 'x': gen.finite(0.0, 40.0)}),
         st.fixed_dictionaries({'kind': st.just('multiple'), 'k': st.integers(0, 200), 'ulps': st.sampled_from([0, 0, 1, -1, 2])}),
+        # an exact multiple of the integration step (fftlength * int_factor fine samples), as a recorded length is
+        st.fixed_dictionaries({'kind': st.just('steps'), 'k': st.integers(1, 400), 'ulps': st.sampled_from([0, 0, 0, 1, -1])}),
         # close to a block boundary but clearly (more than 1e-9 blocks) on one side of it
         st.fixed_dictionaries({'kind': st.just('near'), 'k': st.integers(1, 200), 'side': st.sampled_from([1, -1]),
                                'eps': st.sampled_from([3e-9, 1e-8, 1e-7, 5e-7, 1e-6, 1e-5])}))
@@ -132,7 +134,11 @@ def run_case(case, ctx):
             T = float((d['k'] + d['side'] * Fraction(d['eps'])) * tpb)
             obs.cls('near_boundary')
         else:
-            T = float(d['k'] * tpb)
+            if d['kind'] == 'steps':
+                T = float(d['k'] * Fraction(c['int_factor']) * B * c['fftlength'] / sr)
+                obs.cls('exact_multiple_of_integration_step')
+            else:
+                T = float(d['k'] * tpb)
             for _ in range(abs(d['ulps'])):
                 T = math.nextafter(T, math.inf if d['ulps'] > 0 else -math.inf)
             obs.cls('exact_multiple')
@@ -142,9 +148,12 @@ def run_case(case, ctx):
         lo = math.floor(x)
         allowed = {lo}
         frac = x - lo
-        if frac < Fraction(1, 10 ** 9) and lo > 0:
+        # "within 1e-9 of a block boundary may resolve either way"; a double cannot place a duration of 1e7 blocks more
+        # finely than a few 1e-9 blocks, so the window is never narrower than four ulps of the block count
+        win = max(Fraction(1, 10 ** 9), 4 * Fraction(gen.ulp(max(float(x), 1.0))))
+        if frac < win and lo > 0:
             allowed.add(lo - 1)
-        if 1 - frac < Fraction(1, 10 ** 9):
+        if 1 - frac < win:
             allowed.add(lo + 1)
         ok, n = core.call(obs, 'get_num_blocks', be.get_num_blocks, T)
         if ok and int(n) not in allowed:
@@ -161,10 +170,11 @@ def run_case(case, ctx):
             dt = Fraction(c['int_factor']) / df
             xt = Fraction(T) / dt
             lt = math.floor(xt)
+            # the number of whole integration steps in T, from exact rationals: a T at or just above k steps holds k of
+            # them (never k-1: that would be the float quotient landing below the integer); a T that the float rounding
+            # of an exact multiple left within 1e-9 steps below k may count k or k-1
             al = {lt}
-            if xt - lt < Fraction(1, 10 ** 9) and lt > 0:
-                al.add(lt - 1)
-            if 1 - (xt - lt) < Fraction(1, 10 ** 9):
+            if 1 - (xt - lt) < max(Fraction(1, 10 ** 9), 4 * Fraction(gen.ulp(max(float(xt), 1.0))), xt / 10 ** 12):
                 al.add(lt + 1)
             if pd['tchans'] not in al:
                 obs.fail('params_from_backend_tchans', f'{pd["tchans"]} for {float(xt)!r} steps')
